@@ -135,8 +135,17 @@ def strategy(ctx):
 
 
 # ------------------------------------------------------------------ sandbox
+_STUB_FN = ("() { { printf '%s\\0%d\\0' \"$FUNCNAME\" \"$#\"; for a in \"$@\"; do printf '%s\\0' \"$a\"; done; } >> \"$STUB_LOG\"; "
+            "local body; IFS= read -r -d '' body; printf '%s' \"$body\" >> \"$STUB_LOG.stdin.$FUNCNAME\"; return 0; }")
+_DRIVER = ("cd \"$STUB_CWD\" || exit 97\n"
+           "if [ -n \"${C48_CMD1+x}\" ]; then eval \"$C48_CMD1\" 2> \"$STUB_LOG.err1\"; echo $? > \"$STUB_LOG.rc1\"; fi\n"
+           "cd \"$STUB_CWD\" || exit 97\n"
+           "if [ -n \"${C48_CMD2+x}\" ]; then eval \"$C48_CMD2\" 2> \"$STUB_LOG.err2\"; echo $? > \"$STUB_LOG.rc2\"; fi\n")
+
+
 class _Box:
     root = None
+    pid = None
 
     @classmethod
     def get(cls):
@@ -145,42 +154,48 @@ class _Box:
             cls.root = os.path.join(base, "verif-c48-%d" % os.getpid())
             cls.pid = os.getpid()
             shutil.rmtree(cls.root, ignore_errors=True)
-            os.makedirs(os.path.join(cls.root, "bin"))
+            os.makedirs(os.path.join(cls.root, "bin"))   # stays empty: nothing but the stub functions is reachable
             os.makedirs(os.path.join(cls.root, "cwd"))
-            stub = ("#!/bin/bash\n"
-                    "{ printf '%s\\0%d\\0' \"${0##*/}\" \"$#\"; for a in \"$@\"; do printf '%s\\0' \"$a\"; done; } >> \"$STUB_LOG\"\n"
-                    "IFS= read -r -d '' body\n"
-                    "printf '%s' \"$body\" >> \"$STUB_LOG.stdin\"\n"
-                    "exit 0\n")
-            for name in ("curl", "http"):
-                p = os.path.join(cls.root, "bin", name)
-                with open(p, "w") as f:
-                    f.write(stub)
-                os.chmod(p, 0o755)
+            os.makedirs(os.path.join(cls.root, "log"))
             import atexit
             atexit.register(shutil.rmtree, cls.root, True)
         return cls.root
 
 
-def run_shell(cmd: bytes):
-    """-> (returncode, stderr, calls[(prog, argv list[bytes])], stdin bytes, leftover files)"""
+def _read(p):
+    if os.path.exists(p):
+        with open(p, "rb") as f:
+            return f.read()
+    return None
+
+
+def run_shell2(cmd1, cmd2):
+    """Run the curl export (cmd1) and the httpie export (cmd2) -- each may be None -- in one bash process, each through
+    `eval` with its own stderr capture.  `curl` and `http` are exported shell functions (no other command is reachable:
+    PATH points at an empty directory).  -> {1: result, 2: result} with result = (rc, stderr, calls, stdin, leftover)"""
     root = _Box.get()
-    log = os.path.join(root, "log")
-    for p in (log, log + ".stdin"):
-        if os.path.exists(p):
-            os.unlink(p)
+    logd = os.path.join(root, "log")
+    for n in os.listdir(logd):
+        os.unlink(os.path.join(logd, n))
+    log = os.path.join(logd, "log")
     cwd = os.path.join(root, "cwd")
-    env = {"PATH": os.path.join(root, "bin"), "STUB_LOG": log, "LC_ALL": "C.UTF-8"}
+    env = {"PATH": os.path.join(root, "bin"), "STUB_LOG": log, "STUB_CWD": cwd, "LC_ALL": "C.UTF-8",
+           "BASH_FUNC_curl%%": _STUB_FN, "BASH_FUNC_http%%": _STUB_FN}
+    if cmd1 is not None:
+        env["C48_CMD1"] = cmd1
+    if cmd2 is not None:
+        env["C48_CMD2"] = cmd2
+    env = {os.fsencode(k): (v if isinstance(v, bytes) else os.fsencode(v)) for k, v in env.items()}
     try:
-        pr = subprocess.run([BASH, "--norc", "--noprofile", "-c", cmd], cwd=cwd, env=env, stdin=subprocess.DEVNULL,
-                            stdout=subprocess.PIPE, stderr=subprocess.PIPE, timeout=20)
-        rc, err = pr.returncode, pr.stderr
+        pr = subprocess.run([BASH, "--norc", "--noprofile", "-c", _DRIVER], cwd=cwd, env=env, stdin=subprocess.DEVNULL,
+                            stdout=subprocess.PIPE, stderr=subprocess.PIPE, timeout=30)
+        outer_rc, outer_err = pr.returncode, pr.stderr
     except subprocess.TimeoutExpired:
-        rc, err = -999, b"timeout"
+        outer_rc, outer_err = -999, b"timeout"
     calls = []
-    if os.path.exists(log):
-        with open(log, "rb") as f:
-            parts = f.read().split(b"\0")
+    data = _read(log)
+    if data is not None:
+        parts = data.split(b"\0")
         i = 0
         while i + 1 < len(parts):
             prog = parts[i]
@@ -190,15 +205,31 @@ def run_shell(cmd: bytes):
                 raise HarnessError("stub log corrupt: %r" % parts[:10])
             calls.append((prog, parts[i + 2:i + 2 + argc]))
             i += 2 + argc
-    stdin = b""
-    if os.path.exists(log + ".stdin"):
-        with open(log + ".stdin", "rb") as f:
-            stdin = f.read()
     left = sorted(os.listdir(cwd))
     for name in left:
         p = os.path.join(cwd, name)
         shutil.rmtree(p, ignore_errors=True) if os.path.isdir(p) else os.unlink(p)
-    return rc, err, calls, stdin, left
+    res = {}
+    for idx, cmd, prog in ((1, cmd1, b"curl"), (2, cmd2, b"http")):
+        if cmd is None:
+            continue
+        rc = _read(log + ".rc%d" % idx)
+        err = _read(log + ".err%d" % idx) or b""
+        if rc is None:
+            rc, err = outer_rc if outer_rc != 0 else -998, err + outer_err
+        else:
+            rc = int(rc.strip() or b"-997")
+        mine = [c for c in calls if c[0] == prog]
+        others = [c for c in calls if c[0] not in (b"curl", b"http")]
+        # calls are attributed by program name; a curl command that runs `http` (or vice versa) shows up as a surplus call
+        res[idx] = (rc, err, mine if not others else calls, _read(log + ".stdin." + prog.decode()) or b"", left)
+    n1 = len([c for c in calls if c[0] == b"curl"])
+    n2 = len([c for c in calls if c[0] == b"http"])
+    if cmd1 is None and n1 and 2 in res:
+        res[2] = res[2][:2] + (calls,) + res[2][3:]
+    if cmd2 is None and n2 and 1 in res:
+        res[1] = res[1][:2] + (calls,) + res[1][3:]
+    return res
 
 
 # ------------------------------------------------------------------ reference curl command line model
@@ -240,21 +271,21 @@ def default_port(scheme):
     return 443 if scheme == "https" else 80
 
 
-def urls_for(case):
+def urls_for(case, unbracketed=False):
     """acceptable URLs: built from the request host/port (Request.url), or from the Host header, which mitmproxy treats
     as authoritative for display (Request.pretty_url: host and port of the Host header, default port if it has none)"""
     def mk(h, port):
         hp = h if port == default_port(case["scheme"]) else "%s:%d" % (h, port)
         return ("%s://%s" % (case["scheme"], hp)).encode() + case["path"]
     out = [mk(case["host"], case["port"])]
+    if unbracketed:
+        out = [mk(case["host"].strip("[]"), case["port"])]
     for k, v in case["headers"]:
         if k.lower() == b"host":
             hv = v.decode("utf-8", "surrogateescape")
             m = re.search(r":(\d+)$", hv)
-            if m:
-                out.append(mk(hv[:m.start()], int(m.group(1))))
-            else:
-                out.append(mk(hv, default_port(case["scheme"])))
+            hh, hp = (hv[:m.start()], int(m.group(1))) if m else (hv, default_port(case["scheme"]))
+            out.append(mk(hh.strip("[]") if unbracketed else hh, hp))
             break
     return out
 
@@ -405,20 +436,24 @@ def check_case(case, ctx):
     urls = urls_for(case)
     desc0 = "method=%r path=%r headers=%r body=%r" % (case["method"], case["path"], case["headers"], body)
 
+    # ---------------- export both commands, run them in one bash process
+    cmds = {}
+    for tool, fn in (("curl", export.curl_command), ("httpie", export.httpie_command)):
+        f = make_flow(case)
+        try:
+            cmds[tool] = fn(f).encode("utf-8", "surrogateescape")
+        except exceptions.CommandError as e:
+            if text_body or not body:
+                ctx.fail("%s-refuses-text-request" % tool, desc0 + " -> %r" % (e,))
+        except Exception as e:
+            ctx.crash(e, prefix="%s-crash" % tool)
+    res = run_shell2(cmds.get("curl"), cmds.get("httpie")) if cmds else {}
+
     # ---------------- curl
-    f = make_flow(case)
-    cmd = None
-    try:
-        cmd = export.curl_command(f)
-    except exceptions.CommandError as e:
-        if text_body or not body:
-            ctx.fail("curl-refuses-text-request", desc0 + " -> %r" % (e,))
-    except Exception as e:
-        ctx.crash(e, prefix="curl-crash")
-    if cmd is not None:
-        cmdb = cmd.encode("utf-8", "surrogateescape")
+    if 1 in res:
+        cmdb = cmds["curl"]
         desc = desc0 + " cmd=%r" % (cmdb,)
-        rc, err, calls, stdin, left = run_shell(cmdb)
+        rc, err, calls, stdin, left = res[1]
         if _shell_ok("curl", rc, err, calls, left, ctx, desc):
             m = curl_model(calls[0][1])
             if m["problems"]:
@@ -429,7 +464,7 @@ def check_case(case, ctx):
                 ctx.fail("curl-method:%s" % sub, desc + " curl would send %r" % (m["method"],))
             # url
             if len(m["urls"]) != 1 or m["urls"][0] not in urls:
-                unbr = [u.replace(b"[", b"").replace(b"]", b"") for u in urls] if ":" in case["host"] else []
+                unbr = urls_for(case, True)
                 sub = "ipv6-host-without-brackets" if (len(m["urls"]) == 1 and m["urls"][0] in unbr) else "mismatch"
                 ctx.fail("curl-url:%s" % sub, desc + " urls=%r expected one of %r" % (m["urls"], urls))
             elif any(c in b"[]{}" for c in case["path"]):
@@ -484,26 +519,17 @@ def check_case(case, ctx):
                 ctx.fail("curl-body:unexpected", desc)
 
     # ---------------- httpie
-    f = make_flow(case)
-    cmd = None
-    try:
-        cmd = export.httpie_command(f)
-    except exceptions.CommandError as e:
-        if text_body or not body:
-            ctx.fail("httpie-refuses-text-request", desc0 + " -> %r" % (e,))
-    except Exception as e:
-        ctx.crash(e, prefix="httpie-crash")
-    if cmd is not None:
-        cmdb = cmd.encode("utf-8", "surrogateescape")
+    if 2 in res:
+        cmdb = cmds["httpie"]
         desc = desc0 + " cmd=%r" % (cmdb,)
-        rc, err, calls, stdin, left = run_shell(cmdb)
+        rc, err, calls, stdin, left = res[2]
         if _shell_ok("httpie", rc, err, calls, left, ctx, desc):
             argv = calls[0][1]
             exp, _ = expected_headers(case, "httpie")
             if len(argv) < 2 or argv[0].upper() != case["method"].upper():
                 ctx.fail("httpie-method", desc + " argv=%r" % (argv,))
             elif argv[1] not in urls:
-                unbr = [u.replace(b"[", b"").replace(b"]", b"") for u in urls] if ":" in case["host"] else []
+                unbr = urls_for(case, True)
                 ctx.fail("httpie-url:%s" % ("ipv6-host-without-brackets" if argv[1] in unbr else "mismatch"),
                          desc + " argv=%r expected one of %r" % (argv, urls))
             elif argv[2:] != exp:
